@@ -1,4 +1,6 @@
 import CCV.Drv.C13
+import CCV.Drv.C07
+import CCV.Drv.C10
 import CCV.Drv.C05
 import CCV.Drv.C14
 import CCV.Drv.C16
@@ -13,6 +15,8 @@ open CCV.Drv
 def dispatch (line : String) : String :=
   match line.trimAscii.toString.splitOn " " with
   | "C13" :: rest => C13.handle rest
+  | "C07" :: rest => C07.handle rest
+  | "C10" :: rest => C10.handle rest
   | "C05" :: rest => C05.handle rest
   | "C14" :: rest => C14.handle rest
   | "C16" :: rest => C16.handle rest
